@@ -30,10 +30,12 @@ def lex_identifier(s: "Scanner") -> None:
 
 
 def lex_quoted_string(s: "Scanner") -> None:
+    # the newline that ends an unterminated string moves the line bookkeeping: note where the string starts first.
+    position = s.get_position()
     c = s.next()
     while c != "'":
         if c == "\n" or c is None:
-            raise ScannerException("Unterminated String", s.get_position())
+            raise ScannerException("Unterminated String", position)
 
         if c == "\\" and s.peek() == "'":
             s.next()
